@@ -164,7 +164,9 @@ def run (ctx):
       # ---- D2 bit-fields -------------------------------------------------------------------------
       # item boundaries: parse() and the serialiser cut the fixed header at the same places (a 16-bit composite read as
       # two bytes - or the reverse - silently drops the bits that straddle the byte boundary)
-      pb = sorted(set((o, w) for o, w, c_, n_, t_, s_ in Pf if c_ != 's'))
+      # (only when parse() reads each header byte with one statement: version-dependent alternative formats are not compared)
+      alt = any(sa is not sb and oa < ob + wb and ob < oa + wa for (oa, wa, ca, na, ta, sa) in Pf for (ob, wb, cb, nb, tb, sb) in Pf)
+      pb = sorted(set((o, w) for o, w, c_, n_, t_, s_ in Pf if c_ != 's')) if not alt else []
       hb = sorted(set((o, w) for o, w, c_, n_, a_ in H if c_ not in ('s', 'x')))
       common_end = min(max([o + w for o, w in pb] or [0]), max([o + w for o, w in hb] or [0]))
       pbc = [x for x in pb if x[0] + x[1] <= common_end]; hbc = [x for x in hb if x[0] + x[1] <= common_end]
@@ -433,7 +435,16 @@ def _option_walkers (ctx, repo):
     if not one: continue
     n += 1
     need = None
-    for l, o, r in q.facts_of(st.test, True):
+    tests = [(st.test, True)]
+    if isinstance(st.test, ast.Constant):
+      # `while True:` - the loop runs while the tests guarding its breaks are false
+      tests = []
+      for bn in g.nodes:
+        if bn.kind == 'break' and any(m is a for m, l_ in bn.succ):
+          gs = [(t_, pol) for t_, pol, b_ in g.guards(bn) if not isinstance(t_, (ast.For, ast.AsyncFor)) and g.dominates(h, b_)]
+          if len(gs) == 1: tests.append((gs[0][0], not gs[0][1]))
+      tests = tests[:1]
+    for l, o, r in [f_ for t_, pol in tests for f_ in q.facts_of(t_, pol)]:
       if r is None: continue
       lb, lk = q.linear(l, None); rb, rk = q.linear(r, None)
       # cursor + lk  OP  end + rk   ->  remaining = end - cursor  >= ?
